@@ -190,7 +190,36 @@ fn wild_wire(t: &mut Tape, out: &mut RunOut) -> Wire {
     }
 }
 
+/// The library's own body conversions (`()`, `Vec<u8>`, `Bytes`): each hands over exactly the bytes
+/// it was given (C15: "same body bytes"; C08: none panics).
+pub fn body_conversions(t: &mut Tape, out: &mut RunOut) {
+    use scratchstack_aws_signature::IntoRequestBytes;
+    let n = [0usize, 1, 2, 63, 64, 65, 255, 256, 257, 4096, 65535, 65536, 70000][t.below(13)] + t.below(3);
+    let data: Vec<u8> = (0..n).map(|i| (i as u64).wrapping_mul(2654435761).wrapping_add(t.record.len() as u64) as u8).collect();
+    let d2 = data.clone();
+    let r = guard(out, "IntoRequestBytes for (), Vec<u8>, Bytes", move || {
+        let unit = block_on_ready(().into_request_bytes());
+        let vec = block_on_ready(d2.clone().into_request_bytes());
+        let bytes = block_on_ready(Bytes::from(d2.clone()).into_request_bytes());
+        (unit, vec, bytes)
+    });
+    out.probe("body_conversions_checked");
+    if let Some((unit, vec, bytes)) = r {
+        match unit {
+            Some(Ok(b)) if b.is_empty() => {}
+            other => out.violate("C15", "returned-equals-submitted", format!("().into_request_bytes() gave {:?}", other.map(|r| r.map(|b| b.len()).map_err(|e| e.to_string())))),
+        }
+        for (name, got) in [("Vec<u8>", vec), ("Bytes", bytes)] {
+            match got {
+                Some(Ok(b)) if b.as_ref() == data.as_slice() => {}
+                other => out.violate("C15", "returned-equals-submitted", format!("{}::into_request_bytes() of {} bytes gave {:?}", name, data.len(), other.map(|r| r.map(|b| b.len()).map_err(|e| e.to_string())))),
+            }
+        }
+    }
+}
+
 fn direct_calls(t: &mut Tape, out: &mut RunOut) {
+    body_conversions(t, out);
     let s: String = {
         let n = t.below(24);
         (0..n)
